@@ -17,6 +17,12 @@ def main():
     if a.replay:
         import replay
         sys.exit(replay.run(a.pid, a.replay))
+    if not os.environ.get("VERIF_DEFAULT_DTYPE") and tier == "thorough":
+        os.environ["VERIF_DEFAULT_DTYPE"] = "float64"          # the thorough tier runs with the other common default (scientific users set float64); the quick tier toggles per case where it can
+    if os.environ.get("VERIF_DEFAULT_DTYPE"):
+        # module-level state of torch that the library must not depend on: the whole check can be run under another default dtype
+        import torch
+        torch.set_default_dtype(getattr(torch, os.environ["VERIF_DEFAULT_DTYPE"]))
     mod = importlib.import_module("checks." + a.pid.lower())
     try:
         rc = mod.run(tier, seed, replay=a.replay)
